@@ -530,6 +530,19 @@ class Session:
         self.set_breakpoints(first_bps)
         self.stable_bp_addr = set(self.bp_addr)
         self.union_bp_addr = set(self.bp_addr)
+        if self.script is not None and len(self.script) > 1 and self.script[1][0] == "early":
+            # run control before configurationDone must be refused with an error response and leave the session alive
+            for cmd in self.script[1][1]:
+                r = self.req(cmd, {"threadId": 1})
+                if r.kind != "error":
+                    self.fail("oracle", "`%s` before configurationDone was answered %r instead of an error response" % (cmd, r))
+            self.script = [self.script[0]] + self.script[2:]
+        elif self.script is None and self.rng.random() < 0.15:
+            for cmd in self.rng.sample(["pause", "continue", "next", "stepIn", "stepOut"], self.rng.randrange(1, 3)):
+                r = self.req(cmd, {"threadId": 1})
+                if r.kind != "error":
+                    self.fail("oracle", "`%s` before configurationDone was answered %r instead of an error response" % (cmd, r))
+                self.stats["early_run_control"] = self.stats.get("early_run_control", 0) + 1
         r = self.req("configurationDone", None)
         if not r.ok:
             raise Failure("error", "configurationDone failed: %r" % r)
@@ -648,6 +661,9 @@ def trace_items(prog, log):
                 continue
             kind = kinds[seq]
             if not ok:
+                if kind in ("continue", "pause", "stepIn", "next", "stepOut"):
+                    items.append(["resp", kind, "error"])
+                    continue
                 raise ValueError("error response to %s: %s" % (cmd, msg))
             payload = None
             if kind == "registers":
@@ -719,9 +735,30 @@ def corpus_sessions(mos, probe, rng, model=None):
                                           script=[("setBreakpoints", [8]), ("next",), ("stepOut",), ("stepOut",)], model=model)))
     out.append(("recursive_stepout", Session(mos, p3, rng.randrange(1 << 30), None, 0, 0,
                                              script=[("setBreakpoints", [10]), ("stepOut",), ("stepOut",), ("stepOut",), ("stepOut",)], model=model)))
+    out.append(("early_requests", Session(mos, p, rng.randrange(1 << 30), None, 0, 0,
+                                          script=[("setBreakpoints", [8]), ("early", ["pause", "continue", "next", "stepIn", "stepOut"]),
+                                                  ("stepIn",), ("stepOut",)], model=model)))
     out.append(("stepout_clean", Session(mos, p, rng.randrange(1 << 30), None, 0, 0,
                                          script=[("setBreakpoints", [8]), ("stepOut",)], model=model)))
     return out
+
+
+def launch_without_toml(chk, mos):
+    """`launch` in a workspace without mos.toml is answered with an error response and the adapter keeps serving"""
+    workdir = os.path.join(common.CACHE, "work")
+    os.makedirs(workdir, exist_ok=True)
+    try:
+        with dap_client.DapSession(mos, PAUSE_LOOP, workdir=workdir) as d:
+            os.remove(os.path.join(d.dir, "mos.toml"))
+            r0 = d.request("initialize", {"adapterID": "mos", "linesStartAt1": True, "columnsStartAt1": True}, timeout=EVENT_TIMEOUT)
+            r1 = d.request("launch", {"workspace": d.dir, "testRunner": {"testCaseName": "t"}}, timeout=EVENT_TIMEOUT)
+            r2 = d.request("initialize", {"adapterID": "mos"}, timeout=EVENT_TIMEOUT)
+            if not (r0.ok and r1.kind == "error" and r2.ok):
+                chk.oracle_failure(None, "[launch_without_toml] launch without mos.toml: initialize %s, launch %s, next request %s "
+                                   "(expected ok, error, ok)" % (r0.kind, r1.kind, r2.kind),
+                                   {"name": "launch_without_toml", "responses": [repr(r0), repr(r1), repr(r2)]})
+    except Exception as e:
+        chk.tie_break("correspondence:harness", "launch_without_toml could not run: %s" % e)
 
 
 # ------------------------------------------------------------------------------------------------ run
@@ -775,6 +812,7 @@ def run(chk):
         s.run()
         dist["sessions"] += 1
         absorb(chk, name, s, dist, distinct, model, protocol)
+    launch_without_toml(chk, mos)
     budget = 1100 if thorough else 120
     for i in range(nsessions):
         if time.time() - t0 > budget:
